@@ -257,29 +257,29 @@ type rxExchange struct {
 }
 
 type simClient struct {
-	idx       int
-	epoch     int
-	conn      *simConn
-	node      int
-	opts      connectOpts
-	mount     string
-	rx        []byte
-	connack   *mpkt
-	connackAt int64
-	connectAt int64
-	sawClose  bool
-	closeAt   int64
-	downAt    int64 // when the client side cut/closed (-1 if not)
-	disconnAt int64
-	plan      []string
-	planNext  int
-	open      map[int]*rxExchange // by pid, exchanges not yet completed by the client
-	exch      []*rxExchange
-	garbage   string
-	pingsSent int
-	pingResp  int
-	lastTxAt  int64
-	sid       string
+	idx         int
+	epoch       int
+	conn        *simConn
+	node        int
+	opts        connectOpts
+	mount       string
+	rx          []byte
+	connack     *mpkt
+	connackAt   int64
+	connectAt   int64
+	sawClose    bool
+	closeAt     int64
+	downAt      int64 // when the client side cut/closed (-1 if not)
+	disconnAt   int64
+	plan        []string
+	planNext    int
+	open        map[int]*rxExchange // by pid, exchanges not yet completed by the client
+	exch        []*rxExchange
+	garbage     string
+	pingsSent   int
+	pingResp    int
+	lastTxAt    int64
+	sid         string
 	writeFailed bool
 }
 
@@ -338,13 +338,13 @@ func (w *world) noteRecv(node int, src string, payloads ...[]byte) {
 
 type event struct {
 	deferred bool
-	at   int64
-	seq  uint64
-	kind string
-	i, j int
-	data [][]byte
-	pkt  []byte
-	step int
+	at       int64
+	seq      uint64
+	kind     string
+	i, j     int
+	data     [][]byte
+	pkt      []byte
+	step     int
 }
 type evHeap []*event
 
@@ -368,63 +368,69 @@ func (h *evHeap) Pop() interface{} {
 // world
 
 type world struct {
-	t       *testing.T
-	c       *Case
-	o       *Outcome
-	start   time.Time
-	nodes   []*simNode
-	clients map[int]*simClient
-	past    []*simClient // earlier epochs of reconnecting clients
-	conns   map[[2]int]*grpc.ClientConn
-	events  evHeap
-	seq     uint64
-	mu      sync.Mutex
-	obs     []Obs
-	appends []appendRec
-	rpcs    []rpcRec
-	stamp   int64
-	blocked map[[2]int]bool
-	rpcMode map[[2]int]string
-	rpcN    map[[2]int]int
-	gossipN map[[2]int]int
-	gsplitN map[int]int
-	curStep int
-	hist    []string
-	orderH  []string
-	stateH  []string
-	seed    uint64
-	stats   map[string]int64
-	clock   int64
-	authTab []authRow
-	dataDir string
-	settles []settleRec
-	faultsActive bool
-	inSettle     bool
-	stepAt  []int64 // sim time at which each scenario step was applied
-	stepEnd []int64
-	loadErr string
-	notify     chan struct{}
-	forcedDelay map[int]int64
-	appLogged  int
-	rpcStarted []rpcRec
+	t             *testing.T
+	c             *Case
+	o             *Outcome
+	start         time.Time
+	nodes         []*simNode
+	clients       map[int]*simClient
+	past          []*simClient // earlier epochs of reconnecting clients
+	conns         map[[2]int]*grpc.ClientConn
+	events        evHeap
+	seq           uint64
+	mu            sync.Mutex
+	obs           []Obs
+	appends       []appendRec
+	rpcs          []rpcRec
+	stamp         int64
+	blocked       map[[2]int]bool
+	rpcMode       map[[2]int]string
+	rpcN          map[[2]int]int
+	gossipN       map[[2]int]int
+	gsplitN       map[int]int
+	preListings   map[int][]string
+	lossAtSettle  int64 // datagrams lost up to the last anti-entropy round (which repaired them)
+	heldIDs       map[int]bool // identifiers the harness took out of node 0's writer pool (C06)
+	curStep       int
+	hist          []string
+	orderH        []string
+	stateH        []string
+	seed          uint64
+	stats         map[string]int64
+	clock         int64
+	authTab       []authRow
+	dataDir       string
+	settles       []settleRec
+	faultsActive  bool
+	inSettle      bool
+	stepAt        []int64 // sim time at which each scenario step was applied
+	stepEnd       []int64
+	loadErr       string
+	notify        chan struct{}
+	forcedDelay   map[int]int64
+	appLogged     int
+	rpcStarted    []rpcRec
 	disabledCalls []rpcRec
 	goTag         map[int64]string
-	viewAt     map[int][]string // publish step -> listing of the publisher's node at that instant
-	pingKnow   map[int64]pingKnowledge
-	evOrd       int64             // ordinal of the event being applied
-	stepOrd     []int64           // ordinal at which each scenario step was applied
-	recv        []recvRec         // every replicated-state update a node emitted or was given
-	knownAtStop map[int]map[string]bool // survivor -> session ids it listed when a node was stopped
-	stopAt      map[int]int64
-	rpcLogged  int
-	leaveAt    map[[2]int]int64 // (observer, dead) -> time the observer was told
-	lateGossip map[[2]int]bool  // (observer, dead): a datagram sent by dead reached observer after that
+	viewAt        map[int][]string // publish step -> listing of the publisher's node at that instant
+	pingKnow      map[int64]pingKnowledge
+	evOrd         int64                   // ordinal of the event being applied
+	stepOrd       []int64                 // ordinal at which each scenario step was applied
+	recv          []recvRec               // every replicated-state update a node emitted or was given
+	knownAtStop   map[int]map[string]bool // survivor -> session ids it listed when a node was stopped
+	stopAt        map[int]int64
+	rpcLogged     int
+	leaveAt       map[[2]int]int64 // (observer, dead) -> time the observer was told
+	lateGossip    map[[2]int]bool  // (observer, dead): a datagram sent by dead reached observer after that
 }
 
 type settleRec struct {
 	Step     int
 	AtMs     int64
 	Listings map[int][]string
+	// Pre: the listings before this settle's anti-entropy exchanges, nil unless every broadcast of
+	// the run so far has been delivered (no loss, partition, node stop or earlier exchange)
+	Pre map[int][]string
 }
 
 type authRow struct{ user, pass, mount string }
@@ -613,6 +619,8 @@ type profileHooks struct {
 	judge func(w *world)
 	// onStep runs after every driver step (optional)
 	onStep func(w *world)
+	// onStart runs once the nodes are up, before the first step (optional)
+	onStart func(w *world)
 }
 
 func runE1(t *testing.T, c *Case, hooks profileHooks) *Outcome {
@@ -629,12 +637,59 @@ func runE1(t *testing.T, c *Case, hooks profileHooks) *Outcome {
 				panic(r)
 			}
 		}()
-		synctest.Test(t, func(t *testing.T) {
-			w = newWorld(t, c, o)
-			defer w.teardown()
-			w.run(hooks)
-		})
+		if pm := c.knob("preempt_permille", 0); pm > 0 {
+			// seeded preemption: at every instrumented statement of the broker (lockstep build) the
+			// running goroutine gives way with probability pm/1000, decided by a counter-keyed hash
+			// of the case seed; with one P the order of yield calls, and so the whole schedule, is a
+			// function of the seed
+			prev := runtime.GOMAXPROCS(1)
+			defer runtime.GOMAXPROCS(prev)
+			var ctr uint64
+			seed := mix(c.Seed, "preempt")
+			verifrt.YieldHook = func(site int, blocked bool) {
+				if blocked {
+					runtime.Gosched()
+					return
+				}
+				n := atomic.AddUint64(&ctr, 1)
+				if int64(splitmix(seed+n*0x9e3779b97f4a7c15)%1000) < pm {
+					atomic.AddInt64(&preemptions, 1)
+					runtime.Gosched()
+				}
+			}
+			defer func() { verifrt.YieldHook = nil }()
+		}
+		body := func(t *testing.T) {
+			synctest.Test(t, func(t *testing.T) {
+				w = newWorld(t, c, o)
+				defer w.teardown()
+				if hooks.onStart != nil {
+					hooks.onStart(w)
+				}
+				w.run(hooks)
+			})
+		}
+		if c.Build == "lockstep" {
+			// under the race detector a report makes synctest.Test fail its *testing.T, which ends
+			// the calling goroutine: give every run a T of its own
+			t.Run("bubble", body)
+		} else {
+			body(t)
+		}
 	}()
+	if c.Build == "lockstep" {
+		for _, rr := range newRaceReportsInnermost() {
+			if rr.a == "?" || rr.b == "?" {
+				o.probe("race_reports_outside_wasp")
+				continue
+			}
+			o.violate(c.Prop, "data-race", len(c.Steps), 0, map[string]string{"a": rr.a, "b": rr.b},
+				"the race detector reported unsynchronised conflicting accesses in the running broker: %s <-> %s", rr.a, rr.b)
+		}
+	}
+	if n := atomic.SwapInt64(&preemptions, 0); n > 0 {
+		o.Stats["preemptions"] += n
+	}
 	o.History = w.hist
 	o.Digest = hashStrings(w.hist)
 	o.OrderHash = hashStrings(w.orderH)
@@ -645,6 +700,8 @@ func runE1(t *testing.T, c *Case, hooks profileHooks) *Outcome {
 	}
 	return o
 }
+
+var preemptions int64
 
 type seededReader struct{ r *rand.Rand }
 
@@ -827,6 +884,12 @@ func (w *world) run(hooks profileHooks) {
 		default:
 		}
 		w.apply(e)
+		for e.kind == "step" && !e.deferred && c.Steps[e.step].W && e.step+1 < len(c.Steps) {
+			// the next step belongs to the same driver turn: the broker sees both requests at once
+			w.stepEnd[e.step] = w.nowMs()
+			e = &event{at: e.at, kind: "step", step: e.step + 1}
+			w.apply(e)
+		}
 		synctest.Wait()
 		w.collect()
 		if hooks.onStep != nil {
@@ -886,6 +949,25 @@ func (w *world) apply(e *event) {
 		}
 		w.noteRecv(dst.idx, "gossip", e.data...)
 		w.statAdd("gossip.delivered", int64(len(e.data)))
+	case "presnapshot":
+		// what every node lists once the broadcasts have been delivered (1.45 s of fault-free
+		// gossip) and before any anti-entropy exchange of this settle; only meaningful when no
+		// datagram is still under way and none was ever lost in this run
+		w.preListings = nil
+		pending := false
+		for _, ev := range w.events {
+			if ev.kind == "gossipdeliver" {
+				pending = true
+			}
+		}
+		if !pending && w.stats["fault.gossip_dropped"]+w.stats["fault.gossip_partitioned"] == w.lossAtSettle && w.stats["fault.node_stopped"] == 0 {
+			w.preListings = map[int][]string{}
+			for _, n := range w.nodes {
+				if n.alive {
+					w.preListings[n.idx] = listing(n.dstate)
+				}
+			}
+		}
 	case "pushpullall":
 		w.pushPullAll()
 	case "settlecheck":
@@ -1513,6 +1595,7 @@ func (w *world) beginSettle(step int) {
 		n.log.mu.Unlock()
 	}
 	now := w.nowMs()
+	w.push(&event{at: now + 1450, kind: "presnapshot"})
 	w.push(&event{at: now + 1500, kind: "pushpullall"})
 	w.push(&event{at: now + 3000, kind: "pushpullall"})
 	w.push(&event{at: now + settleDur - 100, kind: "settlecheck", step: step})
@@ -1523,7 +1606,8 @@ func (w *world) settleCheck(step int) {
 	// one synchronous full exchange: nothing inside the brokers can run between it and the
 	// comparison, so the listings must be identical whatever timers fired during the settle
 	w.pushPullAll()
-	rec := settleRec{Step: step, AtMs: w.nowMs(), Listings: map[int][]string{}}
+	rec := settleRec{Step: step, AtMs: w.nowMs(), Listings: map[int][]string{}, Pre: w.preListings}
+	w.preListings = nil
 	var first []string
 	firstIdx := -1
 	for _, n := range w.nodes {
@@ -1542,6 +1626,7 @@ func (w *world) settleCheck(step int) {
 		}
 	}
 	w.settles = append(w.settles, rec)
+	w.lossAtSettle = w.stats["fault.gossip_dropped"] + w.stats["fault.gossip_partitioned"]
 	w.stateH = append(w.stateH, hashStrings(canonListing(first)))
 	w.logf("settle %s", hashStrings(canonListing(first)))
 }
